@@ -706,6 +706,10 @@ def m_int(i, args, kw, st, node):
             r = i.repo.find_method(v.mod, v.cnode, nm)
             if r is not None:
                 return i.call_func(AFunc(r[0], r[1], self_obj=v, cls=v.cnode), [], {}, st, node)
+        if i.repo.find_method(v.mod, v.cnode, "__getattr__") is None and i.repo.find_method(v.mod, v.cnode, "__trunc__") is None:
+            # int() of an object whose class defines neither __int__ nor __index__
+            i._diverged = i.do_raise("TypeError", st, node)
+            return UNK
     if isinstance(v, (int, float)) and len(args) == 1:
         return int(v)
     if isinstance(v, (str, bytes)) and all(is_concrete(a) for a in args) and \
